@@ -11,7 +11,7 @@ from .core import AnalysisError, Ctx, rule
 from .pyast import call_name, pyfacts, unparse
 from .relang import Lang, confirm
 from .rules_abs import rule_values, site_name, walk
-from .textlang import NoLang, string_lang
+from .textlang import NoLang, PositionMismatch, string_lang
 from .visitormodel import PARSER_REL
 
 FLOAT_RE = r"[ \t\n\r\f\v]*[+-]?((\d+(_\d+)*\.?(\d+(_\d+)*)?|\.\d+(_\d+)*)([eE][+-]?\d+(_\d+)*)?|[iI][nN][fF]([iI][nN][iI][tT][yY])?|[nN][aA][nN])[ \t\n\r\f\v]*"
@@ -88,6 +88,9 @@ def g6(ctx: Ctx):
                         # terminal: can the text still contain a blank when it reaches the field?
                         try:
                             L = string_lang(I, sv)
+                        except PositionMismatch as e:
+                            ctx.ob(key, False, f"{e}: when the two texts differ (blanks were removed from one of them) the cut lands on the wrong character, so layout changes the value", file=PARSER_REL, line=getattr(x, "line", 1) or 1, props=["C08", "C15"])
+                            continue
                         except NoLang as e:
                             raise AnalysisError("G6", key, f"cannot derive the language of the text: {e}")
                         content = _is_content_terminal(I, node)
@@ -155,6 +158,9 @@ def g7(ctx: Ctx):
                 which = "int16"
             try:
                 L = string_lang(I, args[0])
+            except PositionMismatch as e:
+                ctx.ob(key, False, f"{e}: blanks in front of the marker shift the cut, the converter receives a truncated or empty text", file=PARSER_REL, line=1, props=["C08", "C15", "C01"])
+                continue
             except NoLang as e:
                 raise AnalysisError("G7", key, f"cannot derive the language of the converted text: {e}")
             ok, w = L.included_in(targets[which])
@@ -390,7 +396,7 @@ def _delims(pattern: str) -> Tuple[int, int]:
     return lead, trail
 
 
-@rule("G12", "QUOTE-STRIP: the text of a quoted terminal loses exactly its delimiting quotes - no content character is cut off, no quote is kept", ["C13", "C03", "C08"], floor=3, default_props=["C03", "C13"])
+@rule("G12", "QUOTE-STRIP: the text of a quoted terminal loses exactly its delimiting quotes - no content character is cut off, no quote is kept", ["C13", "C03", "C08", "C07"], floor=3, default_props=["C03", "C13", "C07"])
 def g12(ctx: Ctx):
     I = interp(ctx)
     vals = rule_values(ctx)
@@ -403,9 +409,14 @@ def g12(ctx: Ctx):
                 continue
             for f, fv in x.fields.items():
                 for y in alts_of(fv):
-                    if not (isinstance(y, StrV) and hasattr(y, "slice_of")):
+                    if not isinstance(y, StrV):
                         continue
-                    base, lo, hi = y.slice_of
+                    if hasattr(y, "slice_of"):
+                        base, lo, hi = y.slice_of
+                    elif getattr(y, "node", None) is not None and not hasattr(y, "op") and not hasattr(y, "concat") and x.cls in ("BasicLiteral", "BasicComment"):
+                        base, lo, hi = y, Const(0), Const(None)  # the whole text of the terminal, quotes included
+                    else:
+                        continue
                     node = getattr(base, "node", None) or getattr(y, "node", None)
                     if node is None or I.peg.kind(node.expr) != "regex":
                         continue
